@@ -82,8 +82,8 @@ def _event_codes():
     return sorted((set(hci.HCI_Event.event_classes) | {0x00, 0x3E, 0xFF, 0x7B}) - {hci.HCI_DISCONNECTION_COMPLETE_EVENT})
 
 
-@harness(pre=_PRE5 + ['0 <= i < 6'], family='host', twin=True, kernels=K, timeout=(60, 300), grids=[(('quick',), {'n': [0, 3], 'chunk': list(range(12))}), (('thorough',), {'n': [0, 3, 5], 'chunk': list(range(12))})],
-         bounds='Host.on_packet with an HCI event of every registered code (+ undefined, LE meta, vendor; 12 chunks, code selected by a symbolic index), 0/3/5 symbolic parameter bytes with a consistent length byte: returns; afterwards a Number Of Completed Packets event is still processed')
+@harness(pre=_PRE5 + ['0 <= i < 6'], family='host', twin=True, kernels=K, timeout=(60, 300), grids=[(('quick',), {'n': [0, 2], 'chunk': list(range(12))}), (('thorough',), {'n': [0, 3, 5], 'chunk': list(range(12))})],
+         bounds='Host.on_packet with an HCI event of every registered code (+ undefined, LE meta, vendor; 12 chunks, code selected by a symbolic index), 0/2 (quick) or 0/3/5 (thorough) symbolic parameter bytes with a consistent length byte: returns; afterwards a Number Of Completed Packets event is still processed')
 def host_hostile_event(x0: int, x1: int, x2: int, x3: int, x4: int, i: int, n: int, chunk: int) -> bool:
     codes = EVCODES[chunk::12]
     if i >= len(codes):
@@ -147,7 +147,7 @@ def _sig_codes():
     return sorted(set(int(k) for k in l2cap.L2CAP_Control_Frame.classes) | {0x00, 0x7E})
 
 
-@harness(pre=_PRE5 + ['0 <= i < 6'], family='l2cap', twin=True, kernels=K, timeout=(60, 300), grids=[(('quick',), {'n': [0, 3], 'cid': [1, 5], 'chunk': [0, 1, 2, 3, 4, 5]}), (('thorough',), {'n': [0, 2, 5], 'cid': [1, 5], 'chunk': [0, 1, 2, 3, 4, 5]})],
+@harness(pre=_PRE5 + ['0 <= i < 6'], family='l2cap', twin=True, kernels=K, timeout=(60, 300), grids=[(('quick',), {'n': [0, 2], 'cid': [1, 5], 'chunk': [0, 1, 2, 3, 4, 5]}), (('thorough',), {'n': [0, 2, 5], 'cid': [1, 5], 'chunk': [0, 1, 2, 3, 4, 5]})],
          bounds='ChannelManager.on_pdu on the classic / LE signalling channel with every signalling code (symbolic index), 0/2/5 symbolic bytes and a consistent length: ordinary exception at most; a following Echo Request is answered with the Echo Response carrying its data')
 def signalling_garbage_then_echo(x0: int, x1: int, x2: int, x3: int, x4: int, i: int, n: int, cid: int, chunk: int) -> bool:
     codes = SIGCODES[chunk::6]
@@ -267,7 +267,7 @@ class _SdpChan:
         self.sent.append(bytes(pdu))
 
 
-@harness(pre=_PRE5, family='sdp', twin=True, kernels=K, timeout=(60, 300), grids=[(('quick',), {'pdu': [0, 1, 2, 3, 4, 5, 6, 7, 9], 'n': [0, 3]}), (('thorough',), {'pdu': [0, 1, 2, 3, 4, 5, 6, 7, 9], 'n': [0, 2, 5]})],
+@harness(pre=_PRE5, family='sdp', twin=True, kernels=K, timeout=(60, 300), grids=[(('quick',), {'pdu': [0, 1, 2, 3, 4, 5, 6, 7, 9], 'n': [0, 2]}), (('thorough',), {'pdu': [0, 1, 2, 3, 4, 5, 6, 7, 9], 'n': [0, 2, 5]})],
          bounds='sdp.Server.on_pdu with every PDU id and 0/2/5 symbolic bytes after a consistent header: ordinary exception at most; a following well-formed Service Search Request is answered with the matching handle')
 def sdp_garbage_then_search(x0: int, x1: int, x2: int, x3: int, x4: int, pdu: int, n: int) -> bool:
     del core.UUID.UUIDS[8:]
@@ -340,7 +340,7 @@ class _L2:
         self.sent.append(bytes(pdu))
 
 
-@harness(pre=_PRE5, family='rfcomm', twin=True, kernels=K, timeout=(60, 300), grids=[(('quick',), {'n': [1, 3]}), (('thorough',), {'n': [1, 3, 4, 5]})],
+@harness(pre=_PRE5, family='rfcomm', twin=True, kernels=K, timeout=(60, 300), grids=[(('quick',), {'n': [1, 2]}), (('thorough',), {'n': [1, 3, 4, 5]})],
          bounds='rfcomm.Multiplexer.on_pdu with 1/3/5 symbolic bytes: ordinary exception at most; a following SABM on DLCI 0 is answered with UA')
 def rfcomm_garbage_then_sabm(x0: int, x1: int, x2: int, x3: int, x4: int, n: int) -> bool:
     with untraced():
@@ -370,8 +370,8 @@ class _Dlc:
         self.written.append(data)
 
 
-@harness(pre=['0 <= x0 <= 127 and 0 <= x1 <= 127 and 0 <= x2 <= 127'], family='hfp', kernels=K, timeout=(90, 300), grid={'n': [1, 3]},
-         bounds='HfProtocol reader: a line of 1/3 arbitrary 7-bit bytes (symbolic) between CR LF pairs, then the final OK of a pending command: the command completes')
+@harness(pre=['0 <= x0 <= 127 and 0 <= x1 <= 127 and 0 <= x2 <= 127'], family='hfp', kernels=K, timeout=(90, 300), grids=[(('quick',), {'n': [1, 2]}), (('thorough',), {'n': [1, 3]})],
+         bounds='HfProtocol reader: a line of 1..2 (quick) / 1 or 3 (thorough) arbitrary 7-bit bytes (symbolic) between CR LF pairs, then the final OK of a pending command: the command completes')
 def hf_garbage_then_ok(x0: int, x1: int, x2: int, n: int) -> bool:
     with detloop.running() as loop:
         with untraced():
